@@ -93,7 +93,28 @@ func init() {
 			}
 			return cs
 		},
-		Exec:    c04Exec,
+		Exec: c04Exec,
+		// The library's own accounting is part of "treated as if no valid response had arrived": the
+		// per-completion-code response counter is process-wide, so it is judged once, after all cases.
+		// Authentic replies of this check carry the codes 0x00, 0x87 (refused Close) and 0xC0 (the busy
+		// precondition) only; every other code was only ever carried by forged or misaddressed datagrams.
+		Post: func(run *ev.Run, tier string, seed int64) {
+			allowed := map[string]bool{}
+			for _, c := range []ipmi.CompletionCode{0x00, 0x87, 0xc0} {
+				allowed["bmc_command_responses_total{code="+c.String()+"}"] = true
+			}
+			n := 0
+			for k, v := range c18Snapshot() {
+				if strings.HasPrefix(k, "bmc_command_responses_total{") && v > 0 && !allowed[k] {
+					n++
+					if n <= 3 {
+						run.Violation("C04:forged-response-counted", fmt.Sprintf("%s = %v at the end of the run: that completion code was only ever carried by forged, unauthenticated or misaddressed datagrams, none of which is a valid response", k, v),
+							ev.MkCase("batch", c04Batch{Suite: 0, Cmd: "guid", What: "codes", Seed: seed}), nil)
+					}
+				}
+			}
+			run.Event("response-counter-labels-checked", 256)
+		},
 		Anchors: []string{"V2Session).DecodeFromBytes", "AES128CBC).DecodeFromBytes", "V2Session).buildAndSend"},
 	})
 }
@@ -242,6 +263,7 @@ func c04Run(run *ev.Run, o c04One) {
 	cctx, ccancel := e.LimitCtx(3)
 	defer ccancel()
 	cancelCaller = ccancel
+	firstEvent := e.BMC.Len()
 	var code ipmi.CompletionCode
 	var value []byte
 	pv, stk := safe(func() {
@@ -303,6 +325,14 @@ func c04Run(run *ev.Run, o c04One) {
 		run.Event("forged-datagrams-delivered", forgedDelivered)
 	}
 	run.Event("authentic-datagrams-delivered", authenticDelivered)
+	// a forged datagram counts as no response: what the library sends next is the same well-formed,
+	// correctly signed request it would have sent after silence - the BMC accepts every one of them
+	for _, evn := range e.BMC.Since(firstEvent) {
+		if evn.Problem != "" {
+			run.Violation("C04:request-rejected-after-forgery", fmt.Sprintf("%s: after the forged datagram the BMC rejected the library's next request (%s); datagram %x", desc, evn.Problem, evn.Raw), cs, nil)
+			return
+		}
+	}
 	_ = context.Canceled
 	tolerable := o.Kind == "flip" && o.Arg < 32 // RMCP header bits are outside the authenticated range
 	if err == nil && code == 0 {
